@@ -78,6 +78,8 @@ def obligations(tier):
             obs.append(Ob(f"A={spec_name(('ind', a, akw))} B={spec_name(('ind', b, bkw))}/n={n}", dict(A=[a, akw], B=[b, bkw], n=n), CFG,
                           weight=n * (10 if (ha or hb) else 1), budget_s=600 if tier == "quick" else 3600, max_paths=50000, selfcheck=True))
     for (a, akw), (b, bkw) in NAME_RELATIONS:
+        if tier == "quick" and (a, b) == ("aroon", "aroon"):
+            continue      # two value-branching window scans side by side: thousands of paths, thorough tier only
         n = 6 if not ({a, b} & {"RSI", "Supertrend", "aroon"}) else (5 if "aroon" in (a, b) else 4)
         obs.append(Ob(f"names: A={spec_name(('ind', a, akw))} B={spec_name(('ind', b, bkw))}/n={n}", dict(A=[a, akw], B=[b, bkw], n=n), CFG, weight=50, budget_s=900))
     # both members on the same collapsing timeframe: they share one candle manager and one candle list
